@@ -66,7 +66,7 @@ func fromMultihash(ctx context.Context, services coreiface.CoreAPI, hash cid.Cid
 	if options.Length != nil && *options.Length > -1 {
 		sorting.Sort(sortFn, entries, false)
 
-		entries = entrySlice(entries, -*options.Length)
+		entries = lastEntries(entries, *options.Length)
 	}
 
 	var heads []cid.Cid
@@ -147,6 +147,11 @@ func fromJSON(ctx context.Context, services coreiface.CoreAPI, jsonLog *iface.JS
 
 	sorting.Sort(sorting.Compare, entries, false)
 
+	// Cap the result at the requested size by taking the last n entries
+	if options.Length != nil && *options.Length > -1 {
+		entries = lastEntries(entries, *options.Length)
+	}
+
 	return &Snapshot{
 		ID:     jsonLog.ID,
 		Heads:  jsonLog.Heads,
@@ -191,22 +196,39 @@ func fromEntry(ctx context.Context, services coreiface.CoreAPI, sourceEntries []
 	uniques := entry.NewOrderedMapFromEntries(combined).Slice()
 	sorting.Sort(sorting.Compare, uniques, false)
 
-	// Cap the result at the right size by taking the last n entries
-	var sliced []iface.IPFSLogEntry
+	// Always keep the entries supplied by the caller and fill up to the requested size
+	// with the most recent of the other entries
+	result := entry.NewOrderedMapFromEntries(sourceEntries).Slice()
+	others := entry.Difference(result, uniques)
 
 	if length > -1 {
-		sliced = entrySlice(uniques, -length)
-	} else {
-		sliced = uniques
+		others = lastEntries(others, maxInt(length-len(result), 0))
 	}
 
-	missingSourceEntries := entry.Difference(sliced, sourceEntries)
-	result := append(missingSourceEntries, entrySliceRange(sliced, len(missingSourceEntries), len(sliced))...)
+	result = append(result, others...)
+	sorting.Sort(sorting.Compare, result, false)
+
+	if len(result) == 0 {
+		return nil, errmsg.ErrEntriesNotDefined
+	}
 
 	return &Snapshot{
 		ID:     result[len(result)-1].GetLogID(),
 		Values: result,
 	}, nil
+}
+
+// lastEntries returns the last n entries: all of them when n exceeds their number, none when n is 0.
+func lastEntries(entries []iface.IPFSLogEntry, n int) []iface.IPFSLogEntry {
+	if n <= 0 {
+		return []iface.IPFSLogEntry{}
+	}
+
+	if n >= len(entries) {
+		return entries
+	}
+
+	return entries[len(entries)-n:]
 }
 
 func entrySlice(entries []iface.IPFSLogEntry, index int) []iface.IPFSLogEntry {
